@@ -71,12 +71,14 @@ UNK_RW = [
     (re.compile(r"\b(\w+)\.sort\(\);"), r"sort_strs(&mut \1);", "*"),
     (re.compile(r'format!\(\s*"[^"]*unknown fields[^"]*",\s*name_display,\s*(\w+)\s*,?\s*\)', re.S), r"fmt_unknown(&name_display, &\1)", 1),
 ]
-UNKNOWN = Fn(file=C, name="check_pat_constructor", container="Typer", drop_self_impl=True, rename="check_pat_unknown_fields", ret=None,
+UNKNOWN = Fn(file=C, name="check_pat_constructor", container="Typer", as_method_of="Typer", rename="check_pat_unknown_fields", ret=None, 
              cut_from="if !field_map.is_empty() {", cut_before="self.push_constraint(Constraint::TypeEqual(ret_ty.clone(), ty.clone()));", cut_tail="",
-             sig="fn check_pat_unknown_fields(field_map: &HashMap<String, PatId>, diagnostics: &mut Diagnostics, name_display: String)",
+             sig="fn check_pat_unknown_fields(&mut self, genv: &GenvShim, local_env: &mut LocalEnvShim, field_map: HashMap<String, PatId>, diagnostics: &mut Diagnostics, name_display: String)",
+             # `field_map.into_values()` / `.values()`: the map's values in hash order
+             pre_rewrites=[(re.compile(r"for (\w+) in field_map\.(?:into_values|values)\(\) \{"), r"let mut __hv = iter_order(&field_map); while __hv.len() > 0 { let \1 = __hv.remove(0);", "*")],
              obligation="the `unknown fields` diagnostic lists the leftover field names in an order that is a function of the names "
                         "(not of the hash map's iteration order)",
-             rewrites=UNK_RW,
+             rewrites=UNK_RW, loop_fn=lambda k, header, kw: ("invariant true,\ndecreases __hv@.len()," if "__hv.len()" in header else None),
              contract="""ensures field_map.key_set() =~= Set::<Seq<char>>::empty() ==> final(diagnostics)@ == old(diagnostics)@,
             !(field_map.key_set() =~= Set::<Seq<char>>::empty()) ==> exists|sep: Seq<char>| final(diagnostics)@ == old(diagnostics)@.push(
                 unknown_text(name_display@, #[trigger] join_text(canonical(field_map.key_set()), sep))),""")
